@@ -6,7 +6,7 @@ from .. import emit1
 from ..emit1 import Aff, Seg, El
 from ..pycalls import CallGraph
 from ..pycfg import walk_no_nested
-from ..source import AnalysisError, find_function, find_class, first_line, src, functions, qualname
+from ..source import atoms, atom_key, side, truth as cond_truth, AnalysisError, find_function, find_class, first_line, src, functions, qualname
 
 COYML = "nemoguardrails/colang/v1_0/lang/coyml_parser.py"
 SLIDING = "nemoguardrails/colang/v1_0/runtime/sliding.py"
@@ -157,7 +157,16 @@ def offsets(ctx, rule):
               "a goto becomes a jump by (index of the label) - (own index)", line=rg.lineno)
     ctx.check(rule + ".offsets", COYML, "_resolve_gotos", "label falls through", "element['_type']='jump'element['_next']=1" in s.replace("\n", ""),
               "a label becomes a jump to the next element", line=rg.lineno)
-    ctx.check(rule + ".offsets", COYML, "_resolve_gotos", "missing/duplicate labels rejected", s.count("raiseException(") >= 2 and "notincheckpoint_idx" in s and "incheckpoint_idx" in s,
+    # a membership test of the label table whose "already there" side raises (duplicate) and one whose "not there" side raises (missing) - any spelling / polarity
+    def _raises_when(present):
+        for i in [x for x in ast.walk(rg) if isinstance(x, ast.If)]:
+            for a_ in atoms(i.test):
+                if isinstance(a_, ast.Compare) and len(a_.ops) == 1 and isinstance(a_.ops[0], (ast.In, ast.NotIn)) and src(a_.comparators[0]) == "checkpoint_idx":
+                    v = cond_truth(i.test, {atom_key(a_)[0]: present})
+                    if v is not None and any(isinstance(x, ast.Raise) for st_ in side(i, v) for x in ast.walk(st_)):
+                        return True
+        return False
+    ctx.check(rule + ".offsets", COYML, "_resolve_gotos", "missing/duplicate labels rejected", _raises_when(True) and _raises_when(False),
               "a goto to an undefined label and a duplicate label raise (no dangling jump)", line=rg.lineno)
     # `return` = absolute jump to -1 (flow end)
     d2e = find_function(t, "_dict_to_element")
@@ -536,11 +545,14 @@ def f_decision_priority(ctx):
         raise AnalysisError("compute_next_state / _record_next_step not found", anchor=FLOWS1 + "::compute_next_state")
     stale = None
     for i in [x for x in ast.walk(cns) if isinstance(x, ast.If)]:
-        if "trigger_event_types" in src(i.test) and "not in" in src(i.test):
-            stale = i
+        for a_ in atoms(i.test):
+            if isinstance(a_, ast.Compare) and len(a_.ops) == 1 and isinstance(a_.ops[0], (ast.In, ast.NotIn)) and "trigger_event_types" in src(a_.comparators[0]):
+                v = cond_truth(i.test, {atom_key(a_)[0]: False})      # the side taken when the event is NOT one of the flow's triggers
+                if v is not None:
+                    stale = side(i, v)
     if stale is None:
         raise AnalysisError("branch for flows not triggered by the current event not found", anchor=FLOWS1 + "::compute_next_state::not-triggered")
-    calls = [c for st in stale.body for c in ast.walk(st) if isinstance(c, ast.Call) and src(c.func) == "_record_next_step"]
+    calls = [c for st in stale for c in ast.walk(st) if isinstance(c, ast.Call) and src(c.func) == "_record_next_step"]
     params = [a.arg for a in rec.args.args]
     for c in calls:
         mod = None
